@@ -103,6 +103,14 @@ class DataSet:
                 "Data and DataArray must have the same dimensionality"
             )
 
+        rank = len(self.shape)
+        if not -rank <= axis < rank:
+            raise ValueError("axis {} is out of bounds for data with {} "
+                             "dimensions".format(axis, rank))
+        if axis < 0:
+            # counted from the last dimension
+            axis += rank
+
         if any([s != ds for i, (s, ds) in
                 enumerate(zip(self.shape, data.shape)) if i != axis]):
             raise ValueError("Shape of data and shape of DataArray must match "
